@@ -68,6 +68,44 @@ def run(ctx):
                                   % ("bitbase::check" if op == "kpkraw" else "evaluator verdict", fen_of(strong, stm, sk, pawn, wk), a[i], b[i]),
                                   {"op": c, "fen": fen_of(strong, stm, sk, pawn, wk), "engine": a[i], "model": b[i],
                                    "confirm": "position fen <fen> ; staticeval"}, key="c12:%s:%d" % (c, i))
+    # the UCI level (observe_at: `staticeval` on KPK positions): stateful sessions on the engine binary along KPK games - related
+    # consecutive position / moves / ucinewgame commands - after every command `staticeval` must show score2str of the evaluator's value
+    # for the position the commands describe (that value is what the exhaustive comparison above judges)
+    import posgen
+    import uciglue
+    exe = engine_binary("plain")
+    rng = ctx.rng
+    q = ctx.tier == "quick"
+    kfens = []
+    for _ in range(40 if q else 600):
+        strong, stm, pawn, sk, wk = rng.randrange(2), rng.randrange(2), rng.randrange(8, 56), rng.randrange(64), rng.randrange(64)
+        kfens.append(fen_of(strong, stm, sk, pawn, wk))
+    kfens = posgen.filter_valid(model, ["4k3/8/3K4/4P3/8/8/8/8 w - - 0 1", "8/8/8/8/4p3/3k4/8/4K3 b - - 0 1", "8/8/8/8/K7/8/P7/k7 w - - 0 1"] + kfens)
+    kgames = [g for g in posgen.playouts(model, rng, kfens, 6) if len(g[1]) >= 2]
+    sessions = uciglue.gen_sessions(rng, kgames, 60 if q else 900, special=False)
+    sessions = [s_ for s_ in sessions if not any(c.startswith("position startpos") for c, _ in s_)]
+    exp = uciglue.expected_fens(model, run_lines, sessions, shards=NPROC)
+    got = uciglue.run_sessions(exe, sessions, extras=("staticeval",))
+    allexp = sorted(set(e for ex_ in exp for e in ex_ if e))
+    rce, ev1, ee = run_lines(impl, ["eval " + e for e in allexp], shards=NPROC)
+    vals = [(x or "0").split()[0] for x in ev1]
+    rcs, sv, es = run_lines(model, ["s2s " + v for v in vals])
+    text_of = dict(zip(allexp, sv))
+    nsess = 0
+    for sess, ex_, gt in zip(sessions, exp, got):
+        for i, ((cmd, st), e, o) in enumerate(zip(sess, ex_, gt)):
+            if e is None:
+                break
+            nsess += 1
+            if o["score"] != text_of[e]:
+                nviol += 1
+                if nviol <= 6:
+                    ctx.violation("UCI session: after [%s] staticeval shows 'Score: %s'; the evaluator's value for the position described (%s) prints as '%s'"
+                                  % (" ; ".join(c[:120] for c, _ in sess[: i + 1]), o["score"], e, text_of[e]),
+                                  {"session": [c for c, _ in sess[: i + 1]] + ["staticeval"], "shown": o["score"], "expected": text_of[e], "position": e},
+                                  key="c12:sess:" + " ; ".join(c for c, _ in sess[: i + 1])[:300])
+                break
+    ctx.notes["uci_session_staticeval_checked"] = nsess
     ctx.cov["evaluations"] = 4096 * len(raw) + nlegal
     ctx.cov["distinct_nontrivial"] = nlegal
     ctx.cov["exhaustive"] = True
